@@ -53,7 +53,9 @@ pub struct TypeDag {
     candidates: Vec<TypeDagCandidate>,
     errors: Vec<DagError>,
     dag_owned: HashMap<u32, HashSet<u32>>,
-    file_dag: Dag<(), (), u32>,
+    // Files may reference each other mutually while the symbol graph is
+    // acyclic, so this is a plain directed graph, not a DAG.
+    file_dag: daggy::petgraph::graph::DiGraph<(), (), u32>,
     file_nodes: BiMap<PathId, u32>,
 }
 
@@ -113,7 +115,7 @@ impl TypeDag {
             candidates: Vec::new(),
             errors: Vec::new(),
             dag_owned: HashMap::default(),
-            file_dag: Dag::new(),
+            file_dag: daggy::petgraph::graph::DiGraph::default(),
             file_nodes: BiMap::new(),
         }
     }
@@ -455,9 +457,7 @@ impl TypeDag {
                 let start: NodeIndex = (*start).into();
                 let end: NodeIndex = (*end).into();
                 if start != end && self.file_dag.find_edge(start, end).is_none() {
-                    let err = self.file_dag.add_edge(start, end, ());
-                    // cyclic error should be caught by dag
-                    err.unwrap();
+                    self.file_dag.add_edge(start, end, ());
                 }
             }
         }
@@ -513,7 +513,7 @@ impl TypeDag {
 
     fn dependent_files(&self) -> HashMap<PathId, Vec<PathId>> {
         let mut ret = HashMap::default();
-        let graph = self.file_dag.graph().clone();
+        let graph = self.file_dag.clone();
 
         for node in self.file_nodes.right_values() {
             let mut dependents = Vec::new();
@@ -595,15 +595,21 @@ impl TypeDag {
     }
 
     fn dump_file(&self) -> String {
-        let nodes = algo::toposort(self.file_dag.graph(), None).unwrap();
+        // Mutually dependent files have no topological order: fall back to
+        // insertion order.
+        let nodes = algo::toposort(&self.file_dag, None)
+            .unwrap_or_else(|_| self.file_dag.node_indices().collect());
         let mut ret = "".to_string();
 
         for node in &nodes {
             let idx = node.index() as u32;
             if let Some(path) = self.file_nodes.get_by_right(&idx) {
                 ret.push_str(&format!("{path}\n"));
-                for parent in self.file_dag.parents(*node).iter(&self.file_dag) {
-                    let idx = parent.1.index() as u32;
+                for parent in self
+                    .file_dag
+                    .neighbors_directed(*node, daggy::petgraph::Direction::Incoming)
+                {
+                    let idx = parent.index() as u32;
                     if let Some(path) = self.file_nodes.get_by_right(&idx) {
                         ret.push_str(&format!(" |- {path}\n"));
                     }
